@@ -1,6 +1,7 @@
 import Verif.Common.Proto
 import Verif.C01.Parse
 import Verif.C01.Interp
+import Verif.C01.Abstract
 /-
 C01 driver: a stateful line protocol (one output line per input line).
 
@@ -9,6 +10,12 @@ C01 driver: a stateful line protocol (one output line per input line).
        arg = i:<dec> | b:<0|1> | s:<hex>
        answer: <event;event;…>|<outcome>|<name=value …>   (globals of scalar type, by name)
        outcome = RET v… | PANIC rt:<kind> | PANIC custom:<type>:<value> | SKIP <why> | FUEL
+  LIFT <modeN> <modeL> <hex function name> c=<vid,…> r=<nvid:lvid,…> m=<key:lvid;…> …
+       stage B: abstract the function of both dumps into the core calculus (the Allocs c= of the
+       naive one as private cells) and run the proved validator `Core.liftCheck` with the register
+       relation r= and one entry map m= per block (key = c<vid> cell | l<vid> load register; the
+       value is a value id of the LIFTED dump).  Relation and maps are untrusted input.
+       answer: lift ok | lift reject <why> | lift error <N|L> <why>
   reset                                               forget all programs
 Malformed input is answered with `bad-op`.
 -/
@@ -83,7 +90,54 @@ def runCase (p : Prog) (fname : String) (maxSteps : Nat) (args : List Val) : Str
       | .error (.panic v) => "PANIC " ++ showPanic p v
       | .error (.unsupported m) => "SKIP " ++ sanitize m
       | .error .fuel => "FUEL"
-    tr ++ "|" ++ out ++ "|" ++ showGlobals p st.heap
+    let line := tr ++ "|" ++ out ++ "|" ++ showGlobals p st.heap
+    -- a value outside the executable subset (zero value of a type parameter, float, …) was observed
+    if line.contains '?' then tr ++ "|SKIP value_outside_the_executable_subset|" else line
+
+def splitList (s sep : String) : List String := if s = "" then [] else s.splitOn sep
+
+def parseCellsTok (t : String) : Option (List Nat) :=
+  if t.startsWith "c=" then parseNats (splitList (t.drop 2).toString ",") else none
+
+def parseRhoTok (t : String) : Option Core.Rho :=
+  if t.startsWith "r=" then
+    (splitList (t.drop 2).toString ",").mapM fun e => match e.splitOn ":" with
+      | [a, b] => do pure ((← a.toNat?), (← b.toNat?))
+      | _ => none
+  else none
+
+def parseKey (s : String) : Option Core.Key :=
+  if s.startsWith "c" then (s.drop 1).toString.toNat?.map .cell
+  else if s.startsWith "l" then (s.drop 1).toString.toNat?.map .lreg
+  else none
+
+def parseMapTok (p : Prog) (fL : Fn) (t : String) : Option Core.KMap :=
+  if t.startsWith "m=" then
+    (splitList (t.drop 2).toString ";").mapM fun e => match e.splitOn ":" with
+      | [k, v] => do
+        let k ← parseKey k
+        let v ← v.toNat?
+        match opndOf p fL (some v) with
+        | .ok o => pure (k, o)
+        | .error _ => none
+      | _ => none
+  else none
+
+def findFn (p : Prog) (name : String) : Option Fn := p.fns.toList.find? (fun f => f.name == name)
+
+def runLift (pN pL : Prog) (fname : String) (cellsT rhoT : String) (maps : List String) : String :=
+  match findFn pN fname, findFn pL fname, parseCellsTok cellsT, parseRhoTok rhoT with
+  | some fN, some fL, some cells, some rho =>
+    match maps.mapM (parseMapTok pL fL) with
+    | none => "bad-op"
+    | some cert =>
+      match toCore pN fN cells, toCore pL fL [] with
+      | .error e, _ => "lift error N " ++ sanitize e
+      | _, .error e => "lift error L " ++ sanitize e
+      | .ok cn, .ok cl =>
+        if Core.liftCheck cn cl rho cert then "lift ok"
+        else "lift reject " ++ sanitize (liftWhy cn cl rho cert)
+  | _, _, _, _ => "bad-op"
 
 def dstep (s : DState) (line : String) : DState × String :=
   match tokens line with
@@ -100,6 +154,10 @@ def dstep (s : DState) (line : String) : DState × String :=
       | some p => ({ progs := (m, p) :: s.progs.filter (·.1 != m), cur := none }, "ok")
       | none => (s, "bad-op")
     | none => (s, "bad-op")
+  | "LIFT" :: mN :: mL :: fname :: cellsT :: rhoT :: maps =>
+    match s.progs.lookup mN, s.progs.lookup mL, hexDecode fname with
+    | some pN, some pL, some fname => (s, runLift pN pL fname cellsT rhoT maps)
+    | _, _, _ => (s, "bad-op")
   | "RUN" :: m :: fname :: steps :: args =>
     match s.progs.lookup m, hexDecode fname, steps.toNat?, parseArgs args with
     | some p, some fname, some steps, some args => (s, runCase p fname steps args)
